@@ -16,6 +16,11 @@ doctor_plan, doctor, doctor_apply and the read APIs):
               wrapped offset and an out-of-range slice in release builds. It must be dominated by an edge on which
               b <= a holds *for that a* (a comparison whose one side derives from b and whose other side derives from
               a), or b must be clamped by min() first. A guard against a different quantity does not count.
+  SUB-C22d    `len - w` where len is the length of the untrusted buffer (slice / map length) and w is a loop-carried
+              window/cursor: every definition of w that reaches the subtraction is clamped with min(., len-derived
+              value), is a constant, or the subtraction is dominated by a w <= len edge. A window that is doubled
+              without the clamp exceeds the file length on files that are not a power-of-two multiple of the start
+              size, and the subtraction underflows.
 Not decided: panic-freedom of index/arithmetic sites in general, termination."""
 from . import lib
 from .facts import Place, op_place
@@ -182,3 +187,48 @@ def run(ctx):
                 ctx.bad('SUB-C22c', f, 'unsigned subtraction of a file-derived value (%s) that is not bounded by the minuend on this path: a crafted field underflows (panic in debug, '
                         'wrapped offset and out-of-range slice in release)' % src, line=st.get('l'), sink='Sub', detail='unguarded-sub:' + (','.join(sorted(x for o, x in flds)) or 'from_le_bytes'))
     ctx.floor('SUB-C22c', n_sub, 5, 'unsigned subtractions with a file-derived subtrahend')
+    # ---- len - loop-carried window
+    ctx.rule('SUB-C22d', 'len - w with a loop-carried w: every definition of w is clamped with min() / constant, or w <= len is established')
+    n_w = 0
+    for f in sorted(reach.values(), key=lambda x: x.path):
+        if f.r.get('derive'):
+            continue
+        d = lib.defs(f)
+        for bb, i, st in f.stmts():
+            rv = st['rv']
+            if rv['k'] != 'bin' or rv['op'] not in ('Sub', 'SubWithOverflow') or 'k' in rv['b'] or 'k' in rv['a']:
+                continue
+            pb = op_place(rv['b'])
+            if pb is None or f.local_ty(pb.l) not in ('usize', 'u64'):
+                continue
+            carried = [l for l in (lib.root_of(f, pb.l) | {pb.l}) if len([x for x in d.get(l, []) if not x['lhs'].p]) >= 2]
+            if not carried:
+                continue
+            sa = lib.slice_back(f, [rv['a']], through_calls=True, at=(bb, i))
+            if not ('PtrMetadata' in sa.ops or any(c.name == 'len' for c in sa.calls)):
+                continue
+            n_w += 1
+            ctx.evaluations += 1
+            raw = []
+            for l in carried:
+                for x in d[l]:
+                    if x['kind'] == 'call':
+                        if x['call'].name not in ('min', 'clamp'):
+                            raw.append(x.get('line'))
+                        continue
+                    s2 = lib.slice_back(f, lib.rv_operands(x['rv']), through_calls=True, at=(x['bb'], x['idx']), stop_locals=(l,))
+                    if any(c.name in ('min', 'clamp') for c in s2.calls) or (l not in s2.locals and not s2.calls and not s2.args):
+                        continue
+                    raw.append(x.get('line'))
+            guarded = False
+            sbl = lib.slice_back(f, [rv['b']], through_calls=True, at=(bb, i))
+            for cm, rel in lib.guards_holding_at(f, bb):
+                for x, y, r in ((cm.sa(), cm.sb(), rel), (cm.sb(), cm.sa(), lib.FLIP[rel])):
+                    if (x.locals & sbl.locals) and ('PtrMetadata' in y.ops or any(c.name == 'len' for c in y.calls)) and r in ('<=', '<', '=='):
+                        guarded = True
+            if raw and not guarded:
+                ctx.bad('SUB-C22d', f, 'the window subtracted from the buffer length is redefined (line %s) without a min() clamp against that length and no `window <= len` edge dominates the '
+                        'subtraction: once it exceeds the file length the subtraction underflows (panic in debug, out-of-range slice in release)' % raw[0], line=st.get('l'), sink='Sub', detail='unclamped-window')
+            else:
+                ctx.ok('SUB-C22d', f, 'loop-carried window is clamped with min() / guarded before `len - window`', line=st.get('l'))
+    ctx.floor('SUB-C22d', n_w, 1, 'len - loop-carried window subtractions (locate_footer_window)')
